@@ -74,7 +74,7 @@ Section Outer.
   Qed.
 
   Definition rt_write (act : list bool) (k : list F) : list F :=
-    fst (write_knobs E true act lims (x_to_knobs E cf (knobs_to_x E cf k)) k).
+    fst (write_knobs E (c_check cf) act lims (x_to_knobs E cf (knobs_to_x E cf k)) k).
 
   Lemma rt_write_rel act k : rt_rel E ws k (rt_write act k).
   Proof. unfold rt_write, x_to_knobs, knobs_to_x. apply wk_rt. Qed.
@@ -318,9 +318,34 @@ Section Outer.
     va (post_flags E cf a s1) = va (post_flags E cf a s2) /\ ta (post_flags E cf a s1) = ta (post_flags E cf a s2).
   Proof. intros Hv Ht. unfold post_flags. rewrite !able_va, !able_ta. cbn. rewrite Hv, Ht. auto. Qed.
 
+  (* ---- _clip_to_limits before the steps (check_limits=False) --------------------------- *)
+  Lemma clip_knobs_inact act l k : kn_inact E act k (clip_knobs E act l k).
+  Proof.
+    revert l k; induction act as [|a act IH]; intros [|l0 l] [|v k]; cbn; auto;
+      try (split; [auto|apply kn_inact_refl]).
+    split; [intros ->; reflexivity|apply IH].
+  Qed.
+  Lemma clip_knobs_length act l k : length (clip_knobs E act l k) = length k.
+  Proof. revert l k; induction act as [|a act IH]; intros [|l0 l] [|v k]; cbn; auto. Qed.
+
+  Lemma pre_clip_facts s :
+    va (pre_clip E cf s) = va s /\ ta (pre_clip E cf s) = ta s /\ log (pre_clip E cf s) = log s /\
+    sx (pre_clip E cf s) = sx s /\ mfl (pre_clip E cf s) = mfl s /\
+    kn_inact E (va s) (knobs s) (knobs (pre_clip E cf s)).
+  Proof.
+    unfold pre_clip. destruct (c_check cf); stsimpl; repeat split; auto; try apply kn_inact_refl.
+    apply clip_knobs_inact.
+  Qed.
+  Lemma pre_clip_frame s : frame s (pre_clip E cf s).
+  Proof. destruct (pre_clip_facts s) as (V & T & _ & _ & _ & K). unfold frame. auto. Qed.
+  Lemma pre_clip_checked s : c_check cf = true -> pre_clip E cf s = s.
+  Proof. unfold pre_clip. intros ->. reflexivity. Qed.
+
   Lemma opt_step_no_args fuel k tb b s :
-    opt_step E cf fuel k tb no_args b s = step_core E cf fuel k tb b s.
-  Proof. unfold opt_step. rewrite pre_none. destruct (step_core E cf fuel k tb b s); cbn; rewrite ?post_none; reflexivity. Qed.
+    opt_step E cf fuel k tb no_args b s = step_core E cf fuel k tb b (pre_clip E cf s).
+  Proof.
+    unfold opt_step. rewrite pre_none. destruct (step_core E cf fuel k tb b (pre_clip E cf s)); cbn; rewrite ?post_none; reflexivity.
+  Qed.
 
   (* ---- solve ---------------------------------------------------------------------- *)
   Definition ext_truth (s s' : state) : Prop :=
@@ -345,10 +370,11 @@ Section Outer.
     assert (D0 : knobs s0 = knobs s /\ va s0 = va s /\ ta s0 = ta s /\ log s0 = log s).
     { unfold s0; stsimpl; auto. }
     destruct D0 as (K0 & V0 & T0 & L0).
-    assert (F0 : forall s', frame s0 s' -> frame s s').
-    { unfold frame. rewrite K0, V0, T0. auto. }
-    assert (X0 : forall s', ext_rows s0 s' (good_new s0) -> ext_truth s s').
-    { intros s' H. apply ext_rows_truth in H. unfold ext_truth in *. rewrite L0 in H. exact H. }
+    destruct (pre_clip_facts s0) as (Vc & Tc & Lc & _ & _ & Kc).
+    assert (F0 : forall s', frame (pre_clip E cf s0) s' -> frame s s').
+    { intros s' Hf. eapply frame_trans; [|exact Hf]. unfold frame. rewrite Vc, Tc, V0, T0. rewrite K0, V0 in Kc. auto. }
+    assert (X0 : forall s', ext_rows (pre_clip E cf s0) s' (good_new (pre_clip E cf s0)) -> ext_truth s s').
+    { intros s' H. apply ext_rows_truth in H. unfold ext_truth in *. rewrite Lc, L0 in H. exact H. }
     set (body := bind (opt_step E cf fuel k tb no_args b s0)
                       (fun s1 => if c_assert cf && negb (lpwt s1) then Err ERuntime s1 else Ok s1)).
     assert (Hbody : post body
